@@ -4,6 +4,7 @@ import DM.Props.C07
 import DM.Props.C08
 import DM.Lemmas.AsciiRT
 import DM.Lemmas.X12RT
+import DM.Lemmas.B256RT
 /-!
 # C01 — the symbol-level half of the round trip, for all sizes and all contents
 
@@ -221,5 +222,22 @@ example : DM.Model.Enc.run (symbolList (List.range 30)) [] [65, 65, 65, 65, 65, 
     .ok ([238, 89, 191, 89, 191, 89, 191, 67], 3) := by decide +kernel
 example : DM.Model.Enc.run (symbolList (List.range 30)) [] [65, 65, 65, 65] [(4, .x12), (0, .x12)] =
     .ok ([238, 89, 191, 254, 66], 1) := by decide +kernel
+
+/-! ## The data-level half for a message planned entirely in Base 256
+
+`b256_roundtrip`: latch, length field, 255-state randomisation by codeword position. `write_length`
+chooses the one-codeword length (≤ 249 bytes), the two-codeword length (≤ 1555 bytes) or, when the
+data ends exactly with the symbol, length 0 = "to the end of the symbol"; all three decode to the message. -/
+
+theorem b256_roundtrip (list : List Sym) (body cw : List Nat) (sym : Sym) (hb : ∀ b ∈ body, b < 256)
+    (h : DM.Model.Enc.run list [] body [(body.length, .base256), (0, .base256)] = .ok (cw, sym)) :
+    DM.Model.Dec.decodeData cw = .ok body :=
+  DM.Lemmas.B256RT.pure_b256_roundtrip list body cw sym hb h
+
+/-- Non-vacuity: the "to the end of the symbol" form and an explicit length with padding. -/
+example : DM.Model.Enc.run (symbolList (List.range 30)) [] [200, 201, 202] [(3, .base256), (0, .base256)] =
+    .ok ([231, 44, 137, 32, 182], 1) := by decide +kernel
+example : DM.Model.Enc.run (symbolList (List.range 30)) [] [200, 201] [(2, .base256), (0, .base256)] =
+    .ok ([231, 46, 137, 32, 129], 1) := by decide +kernel
 
 end DM.Props.C01
